@@ -62,19 +62,23 @@ Changes, tx statuses, events, skipped ids with error variants, accept/reject wit
 C01; distinct = multiset of (template, outcome) per block.";
 
 fn err_name(e: &ExecutorError) -> String {
-    // variant plus first inner variant, no payload
+    // variant plus inner variant names, no payload
     let s = format!("{e:?}");
     let mut out = String::new();
     let mut depth = 0;
-    for ch in s.chars() {
+    let chars: Vec<char> = s.chars().collect();
+    let mut i = 0;
+    while i < chars.len() {
+        let ch = chars[i];
         if ch.is_alphanumeric() || ch == '_' {
             out.push(ch);
-        } else if ch == '(' && depth < 2 {
+        } else if ch == '(' && depth < 3 && chars.get(i + 1).map(|c| c.is_ascii_uppercase()).unwrap_or(false) {
             depth += 1;
             out.push('.');
         } else {
             break;
         }
+        i += 1;
     }
     out.trim_end_matches('.').to_string()
 }
@@ -409,8 +413,8 @@ fn c07(args: &Args, report: &Report) {
         }
     }
     let shards = args.by_tier(16, 32);
-    let sessions = args.by_tier(1, 12);
-    let blocks = args.by_tier(5u32, 10);
+    let sessions = args.by_tier(3, 40);
+    let blocks = args.by_tier(6u32, 10);
     if let Some(r) = read_replay(args) {
         let seed = r.get("seed").and_then(|v| v.as_u64()).unwrap_or(args.seed);
         let shard = r.get("shard").and_then(|v| v.as_u64()).unwrap_or(0) as usize;
@@ -430,6 +434,9 @@ fn c07(args: &Args, report: &Report) {
             run_session(&rep, selftest, seed, shard, session, &mut rng, blocks);
         }
     });
+    if args.replay.is_some() {
+        return;
+    }
     report.require("c07.production.both_ok", args.by_tier(60, 2_000));
     report.require("c07.validation.both_accept", args.by_tier(60, 2_000));
     report.require("c07.validation_both_reject", args.by_tier(150, 5_000));
